@@ -6,7 +6,9 @@ import (
 	"context"
 	"encoding/binary"
 	"fmt"
+	"io"
 	"net"
+	"sync"
 	"os"
 	"strings"
 	"testing"
@@ -23,14 +25,36 @@ type wsession struct {
 	cli     net.Conn
 	connErr chan error // result of Connect; "panic: …" errors for panics
 	frames  chan vframe
-	rdErr   chan error
+	rdDone  chan struct{} // closed when the peer's reader has seen the end of the stream
+	rawMu   sync.Mutex
+	raw     []byte // every byte the peer received, in order
+	wmu     sync.Mutex // serialises the peer's writes
 }
 
-func wstart(opts ...ClientOpt) *wsession {
-	a, b := net.Pipe()
+func wstart(opts ...ClientOpt) *wsession { return wstartOn(false, opts...) }
+
+// wstartOn creates the client over net.Pipe or loopback TCP.
+func wstartOn(tcp bool, opts ...ClientOpt) *wsession {
+	var a, b net.Conn
+	if tcp {
+		ln, err := net.Listen("tcp", "127.0.0.1:0")
+		if err != nil {
+			panic(err)
+		}
+		acc := make(chan net.Conn, 1)
+		go func() { c, _ := ln.Accept(); acc <- c }()
+		a, err = net.DialTimeout("tcp", ln.Addr().String(), 3*time.Second)
+		if err != nil {
+			panic(err)
+		}
+		b = <-acc
+		ln.Close()
+	} else {
+		a, b = net.Pipe()
+	}
 	opts = append([]ClientOpt{WithLogger(nil)}, opts...)
 	s := &wsession{c: NewClient(opts...), p: &vpeer{c: b}, cli: a, connErr: make(chan error, 1),
-		frames: make(chan vframe, 4096), rdErr: make(chan error, 1)}
+		frames: make(chan vframe, 1<<16), rdDone: make(chan struct{})}
 	go func() {
 		defer func() {
 			if r := recover(); r != nil {
@@ -39,12 +63,24 @@ func wstart(opts ...ClientOpt) *wsession {
 		}()
 		s.connErr <- s.c.Connect(a)
 	}()
+	// the peer's reader never stops reading; it records the raw bytes and, independently, splits them into frames
 	go func() {
+		defer close(s.rdDone)
+		defer close(s.frames)
+		r := io.TeeReader(b, rawWriter{s})
+		h := make([]byte, 10)
 		for {
-			f, err := s.p.recv(30 * time.Second)
-			if err != nil {
-				s.rdErr <- err
-				close(s.frames)
+			if _, err := io.ReadFull(r, h); err != nil {
+				return
+			}
+			f := vframe{ver: int(h[0]>>2) & 7, typ: int(h[0]&3)<<8 | int(h[1]), id: binary.BigEndian.Uint32(h[6:10])}
+			n := binary.BigEndian.Uint32(h[2:6])
+			if n < 10 {
+				io.Copy(io.Discard, r) // unparseable from here on: keep recording
+				return
+			}
+			f.payload = make([]byte, n-10)
+			if _, err := io.ReadFull(r, f.payload); err != nil {
 				return
 			}
 			s.frames <- f
@@ -53,7 +89,49 @@ func wstart(opts ...ClientOpt) *wsession {
 	return s
 }
 
-func (s *wsession) greet() { s.p.send(vframe{ver: 1, typ: 63, id: 0, payload: renPayload(0)}) }
+type rawWriter struct{ s *wsession }
+
+func (w rawWriter) Write(b []byte) (int, error) {
+	w.s.rawMu.Lock()
+	w.s.raw = append(w.s.raw, b...)
+	w.s.rawMu.Unlock()
+	return len(b), nil
+}
+
+func (s *wsession) rawBytes() []byte {
+	s.rawMu.Lock()
+	defer s.rawMu.Unlock()
+	return append([]byte(nil), s.raw...)
+}
+
+// psend writes one frame from the peer (serialised).
+func (s *wsession) psend(f vframe) error {
+	s.wmu.Lock()
+	defer s.wmu.Unlock()
+	return s.p.send(f)
+}
+
+// finish closes the client, lets Connect return, closes the client's end and waits until the peer has read
+// everything that was written; returns the complete raw stream.
+func (s *wsession) finish() []byte {
+	s.c.Close()
+	// unblock the client's read loop without touching its write side, so that Connect returns only after the
+	// write loop has finished the frame it may be writing
+	s.cli.SetReadDeadline(time.Now())
+	select {
+	case <-s.connErr:
+	case <-time.After(3 * time.Second):
+	}
+	s.cli.Close()
+	select {
+	case <-s.rdDone:
+	case <-time.After(3 * time.Second):
+	}
+	s.p.c.Close()
+	return s.rawBytes()
+}
+
+func (s *wsession) greet() { s.psend(vframe{ver: 1, typ: 63, id: 0, payload: renPayload(0)}) }
 
 func (s *wsession) stop() {
 	s.c.Close()
